@@ -223,6 +223,11 @@ func TestC13(t *testing.T) {
 		{name: "F5", fn: F5, handle: func(b *mocker.Builder) mocker.ExportedMocker { return b.Func(F5) }, cbType: reflect.TypeOf(F5),
 			state:   func() string { return fp(func() interface{} { a, n := F5(P2{1, 2}, 3); return fmt.Sprint(a, n) }) },
 			prepare: func(b *mocker.Builder) { b.Func(F5).Return(P2{55, 55}, 55) }},
+		{name: "FArr", fn: FArr, handle: func(b *mocker.Builder) mocker.ExportedMocker { return b.Func(FArr) }, cbType: reflect.TypeOf(FArr),
+			state:   func() string { return fp(func() interface{} { a, b := FArr(1); return fmt.Sprint(a, b) }) },
+			prepare: func(b *mocker.Builder) { b.Func(FArr).Return([4]int32{55}, [3]byte{55}) }},
+		{name: "GenT[int]", fn: GenT[int], handle: func(b *mocker.Builder) mocker.ExportedMocker { return b.Func(GenT[int]) }, cbType: reflect.TypeOf(GenT[int]),
+			state: func() string { return fp(func() interface{} { return GenT[int](1, "s") }) }, prepare: func(b *mocker.Builder) { b.Func(GenT[int]).Return(55) }},
 		{name: "T.M", fn: (*T).M, handle: func(b *mocker.Builder) mocker.ExportedMocker { return b.Struct(&T{}).Method("M") }, cbType: reflect.TypeOf((*T).M),
 			state: func() string { return fp(func() interface{} { return (&T{}).M(1, "s") }) }, prepare: func(b *mocker.Builder) { b.Struct(&T{}).Method("M").Return(55) }},
 		{name: "FT", fn: FT, handle: func(b *mocker.Builder) mocker.ExportedMocker { return b.Func(FT) }, cbType: reflect.TypeOf(FT),
@@ -388,6 +393,24 @@ func TestC13(t *testing.T) {
 			for _, bad := range []interface{}{p1{1}, p3{1, 2, 3}} {
 				bad := bad
 				ms = append(ms, mistake{"return-value-size", fmt.Sprintf("position %d: %T (%d bytes) for %s (%d bytes)", i, bad, reflect.TypeOf(bad).Size(), outs[i], outs[i].Size()), func(b *mocker.Builder) {
+					vs := make([]interface{}, len(outs))
+					for j := range vs {
+						vs[j] = goodValue(outs[j])
+					}
+					vs[i] = bad
+					tg.handle(b).Return(vs...)
+				}})
+			}
+		}
+		// array results: an array of another length or element size is another size
+		for i := range outs {
+			i := i
+			if outs[i].Kind() != reflect.Array {
+				continue
+			}
+			for _, bt := range []reflect.Type{reflect.ArrayOf(outs[i].Len()-2, outs[i].Elem()), reflect.ArrayOf(outs[i].Len()+2, outs[i].Elem()), reflect.ArrayOf(outs[i].Len(), reflect.TypeOf(int64(0)))} {
+				bad := reflect.Zero(bt).Interface()
+				ms = append(ms, mistake{"return-value-size", fmt.Sprintf("position %d: %T (%d bytes) for %s (%d bytes)", i, bad, bt.Size(), outs[i], outs[i].Size()), func(b *mocker.Builder) {
 					vs := make([]interface{}, len(outs))
 					for j := range vs {
 						vs[j] = goodValue(outs[j])
@@ -771,6 +794,12 @@ func firstLine13(v interface{}) string {
 	}
 	return s
 }
+
+//go:noinline
+func FArr(a int) ([4]int32, [3]byte) { return [4]int32{-9}, [3]byte{9} }
+
+//go:noinline
+func GenT[T any](a T, s string) int { return -31 }
 
 type outerP2 = P2
 
